@@ -414,11 +414,11 @@ def spread_export_effect(ctx):
     d = prov.defs(e)
     for st in errs:
         for b in e.blocks:
-            if b.term.k != "switch" or not cfg.dominates(b.idx, st.bb):
-                continue
+            if b.term.k != "switch" or not cfg.dominates(b.idx, st.bb) or cfg.reaches(b.idx, b.idx):
+                continue     # (the loop's own `next()` test is not the guard)
             sl = prov.slice(e, Operand(b.term.j["discr"]))
             for fid, l in sl.locals:
-                if fid != e.id:
+                if fid != e.id or not e.local_name(l):
                     continue
                 for kind, site in d.defs.get(l, ()):
                     if kind == "stmt" and any(cfg.dominates(t.bb, site.bb) or (cfg.reaches(t.bb, site.bb) and cfg.reaches(site.bb, t.bb)) for t in loop_items) \
